@@ -15,6 +15,7 @@ From SV Require Import Bin.Struct Fmt.VtfContainer Fmt.VtfContainerProofs Gen.Vt
 From SV Require Import Fmt.VtfSides Fmt.VtfSidesProofs.
 From SV Require Import Fmt.VtfWholeFile Fmt.VtfWholeFileProofs Fmt.VtfSheetProofs.
 From SV Require Import Fmt.VtfAccess Fmt.VtfAccessProofs Gen.VtfAccess_gen Fmt.VtfAccessGenProofs.
+From SV Require Import Fmt.VtfBluescreen Fmt.VtfBluescreenProofs.
 Import ListNotations.
 
 (** ** Pixels *)
@@ -503,3 +504,41 @@ Proof. exact gen_every_frame_copy_is_between_equal_sizes. Qed.
 Theorem c15_copy_guard_width_only_refuted :
   copy_guard_ok [(GSelfW, GSrcW)] = false /\ guard_rejects [(GSelfW, GSrcW)] 8 2 8 4 = false.
 Proof. exact copy_guard_width_only_refuted. Qed.
+
+(** ** Round 4: the two keyed ("bluescreen") formats, until now only searched
+
+    [save] stores a pixel whose alpha is below 128 as pure blue and any other pixel as its colour; [load] turns a stored
+    pure blue into transparent black and anything else into the colour with alpha 255.  The per-pixel [if] statements are
+    translated into [ETest] chains ([x < 128] = bit 7 clear, [x == c] = all eight bits agree: valid for bytes) and compared
+    with the hand-written codec by [bs_ok] (instance obligation per format; [bgr] = stored as b, g, r). *)
+Open Scope N_scope.
+Theorem c15_bluescreen_load_of_save : forall bgr c, bs_ok bgr c = true ->
+  forall r g b a, r < 256 -> g < 256 -> b < 256 -> a < 256 ->
+    run (load_e c) (run (save_e c) [r; g; b; a]) = bluescreen_q r g b a
+    /\ run (save_e c) [r; g; b; a] = in_order bgr (bluescreen_stored r g b a)
+    /\ bytes (run (save_e c) [r; g; b; a]) /\ length (run (save_e c) [r; g; b; a]) = bpp c.
+Proof. exact bs_load_of_save. Qed.
+(** 8 bits per used channel: an opaque pixel (alpha >= 128) that is not the key colour keeps r, g, b exactly *)
+Theorem c15_bluescreen_exact_on_opaque_non_blue : forall bgr c, bs_ok bgr c = true ->
+  forall r g b a, r < 256 -> g < 256 -> b < 256 -> a < 256 -> 128 <= a -> (r, g, b) <> (0, 0, 255) ->
+    run (load_e c) (run (save_e c) [r; g; b; a]) = [r; g; b; 255].
+Proof. exact bs_exact_on_opaque_non_blue. Qed.
+(** storing loaded pixels again changes nothing, for every three stored bytes; and a second round trip changes nothing *)
+Theorem c15_bluescreen_stored_fixpoint : forall bgr c, bs_ok bgr c = true ->
+  forall r g b, r < 256 -> g < 256 -> b < 256 ->
+    run (save_e c) (run (load_e c) (in_order bgr [r; g; b])) = in_order bgr [r; g; b].
+Proof. exact bs_stored_fixpoint. Qed.
+Theorem c15_bluescreen_second_round_trip : forall bgr c, bs_ok bgr c = true ->
+  forall r g b a, r < 256 -> g < 256 -> b < 256 -> a < 256 ->
+    run (save_e c) (run (load_e c) (run (save_e c) [r; g; b; a])) = run (save_e c) [r; g; b; a].
+Proof. exact bs_second_round_trip. Qed.
+Example c15_bluescreen_inhabited : bs_ok false (bs_codec false) = true /\ bs_ok true (bs_codec true) = true /\ wf (bs_codec false) = true /\ wf (bs_codec true) = true.
+Proof. exact bs_ok_inhabited. Qed.
+(** the nearby wrong shape (alpha tested on bit 6) is not accepted and stores other bytes; and the documented behaviour is
+    NOT the identity on an opaque pure-blue pixel: it comes back transparent black (the format cannot store it) *)
+Theorem c15_bluescreen_wrong_bit_refuted :
+  bs_ok false {| bpp := 3; save_e := bs_save_bit6; load_e := bs_load false |} = false
+  /\ run bs_save_bit6 [1; 2; 3; 64] = [1; 2; 3] /\ bluescreen_stored 1 2 3 64 = [0; 0; 255]
+  /\ run bs_save_bit6 [1; 2; 3; 128] = [0; 0; 255]
+  /\ bluescreen_q 0 0 255 255 = [0; 0; 0; 0].
+Proof. exact bs_wrong_bit_refuted. Qed.
